@@ -56,7 +56,7 @@ class CallMixin(object):
             return "%s:%s.%s" % (fr.owner.module.name, fr.owner.name, fr.fn.name)
         return "%s:%s" % (fr.module.name, fr.fn.name)
 
-    def bind_args(self, f, args, kwargs):
+    def bind_args(self, f, args, kwargs, lenient=False):
         fn = f.node
         a = fn.args
         names = [x.arg for x in a.posonlyargs + a.args]
@@ -70,9 +70,10 @@ class CallMixin(object):
                 vals = [f.self_val] + vals
         env = {}
         if len(vals) > len(names):
-            if not a.vararg:
+            if not a.vararg and not lenient:
                 raise VerifError("too many arguments for %s" % fn.name)
-            env[a.vararg.arg] = tuple(vals[len(names):])
+            # (lenient: an interface contract on an abstract method whose concrete overrides take more arguments)
+            env[a.vararg.arg if a.vararg else "extra_args"] = tuple(vals[len(names):])
             vals = vals[:len(names)]
         elif a.vararg:
             env[a.vararg.arg] = ()
@@ -185,7 +186,7 @@ class CallMixin(object):
 
     def apply_contract(self, c, f, args, kwargs):
         ctx = self.ctx
-        env = self.bind_args(f, args, kwargs)
+        env = self.bind_args(f, args, kwargs, lenient=c.assume_only)
         # coerce ints passed for float parameters
         for n, ty in self.param_types(c, f).items():
             if n in env and ty.kind == "float":
